@@ -45,7 +45,8 @@ func init() {
 		Explanation: "Decides the over-approximation structure of pattern pre-filtering: the entry-node table (evaluated from the nodeToASTTypes literal) maps every pattern node kind that mirrors a go/ast kind to at least that AST kind, 'Any' covers the union, and a negated or unconstrained root yields all kinds (R8.1); every matcher kind is classified in collectSymbols/collectEntryNodes by an explicit case or a reviewed 'structural default is sound' entry (R8.2); " +
 			"requirements are never derived from a Not operand, an Or yields 'no requirement' as soon as one alternative has none, and only Strings below a Symbol become index symbols (R8.3); CouldMatchAny handles every kind collectSymbols can return (R8.4); the call-index path is used only when every alternative of the root call's function is a Symbol over plain names, and both candidate sources end in the same Match call (R8.5); " +
 			"every Symbol name that the fast package rejection actually requires, in all pattern constants of the module, splits into a well-formed (package path, type, name) triple with a non-empty package path — a name the index can never resolve rejects every package (R8.6). " +
-			"It does NOT decide equivalence of the two search strategies on all programs (aliases declared in third packages, wrapper nodes such as ExprStmt/ParenExpr that the matcher looks through).",
+			"It does NOT decide equivalence of the two search strategies on all programs (aliases declared in third packages, wrapper nodes such as ExprStmt/ParenExpr that the matcher looks through)." +
+			" Also decided: the type index's package table, from which every symbol lookup starts, covers the package of every used object (methods and fields of packages that are not imported directly), not only the imports.",
 		RuleText:    "table literals evaluated from the AST; type-switch case sets; SSA value origins of recursive calls; a reader for the pattern language applied to every pattern.MustParse constant",
 		Assumptions: []string{"typeindex.Index.Object/Selection/Calls find every direct reference to an object of another package"},
 		Run:         runC08,
@@ -1117,7 +1118,6 @@ func malformedSymbol(name string) string {
 }
 
 var _ = token.NoPos
-
 
 // closureTargets returns the function literals a called function value may
 // denote (through local variables and captured variables of enclosing functions).
